@@ -127,20 +127,25 @@ def capture_cex(keep_exec=True):
     cap = Captured()
     orig = M.CounterexampleHandler.handle_assertion_violation
 
+    exs = {}  # (handler identity, path_id) -> Exec, held by the harness (main thread) only
+
     def wrapper(self, path_id, ex, panic_found, description=None):
         cap.cex.append({"path_id": path_id, "ex": ex if keep_exec else None, "panic": panic_found, "probe": self.is_probe, "fun": self.ctx.info.sig, "description": description})
+        if keep_exec:
+            exs[(id(self), path_id)] = (self, ex)  # holding the handler keeps its id unique
         r = orig(self, path_id, ex, panic_found, description)
         cap.submitted += 1
         return r
 
     orig_cb = M.CounterexampleHandler._solve_end_to_end_callback
 
-    def callback(self, future, ex, path_ctx, description):
+    def callback(self, future, *a, **k):
+        path_ctx = k.get("path_ctx")
         try:
-            return orig_cb(self, future, ex, path_ctx, description)
+            return orig_cb(self, future, *a, **k)
         finally:
             so = next((o for o in reversed(list(self.ctx.solver_outputs)) if o.path_id == path_ctx.path_id), None)
-            cap.solved.append({"path_id": path_ctx.path_id, "ex": ex if keep_exec else None, "model": so.model if so else None, "result": str(so.result) if so else None,
+            cap.solved.append({"path_id": path_ctx.path_id, "ex": exs.get((id(self), path_ctx.path_id), (None, None))[1], "model": so.model if so else None, "result": str(so.result) if so else None,
                                "probe": self.is_probe, "fun": self.ctx.info.sig})
 
     M.CounterexampleHandler.handle_assertion_violation = wrapper
